@@ -287,8 +287,10 @@ func C07ReceiversUsed(root *ref.RouteNode) []string {
 // C07SampleRe draws a string that is likely (not certainly) in the language.
 func C07SampleRe(t *rapid.T, r *ref.Re, alphabet []rune) string {
 	switch r.Op {
-	case "lit":
+	case "lit", "esc":
 		return r.Lit
+	case "perl":
+		return string(rapid.SampledFrom(append([]rune{'7', '_', ' '}, alphabet...)).Draw(t, "perlR"))
 	case "any":
 		return string(rapid.SampledFrom(alphabet).Draw(t, "anyR"))
 	case "class":
